@@ -103,7 +103,22 @@ def _replay_request(method, malformed, uri=None):
         finally:
             rc = s.close()
         bad = (r is None) or bool(extra) or (r2 is None)
-        return bad, {'method': m, 'malformed_params': malformed, 'answered': r is not None, 'extra_responses': len(extra), 'server_alive_after': alive, 'later_request_answered': r2 is not None}
+        det = {'method': m, 'malformed_params': malformed, 'answered': r is not None, 'extra_responses': len(extra), 'server_alive_after': alive, 'later_request_answered': r2 is not None}
+        if bad: return bad, det
+        # the answer of the server quotes the request: long requests with multi-byte characters at every byte offset parity (a slip that cuts or slices the quoted text shows here)
+        for mlong, plong in ((m + '/' + 'ä' * 150, params), (m + '/x' + 'ä' * 150, params), (m, {'bogus': 'é' * 300}), (m, {'bogusx': 'é' * 300})):
+            s2 = lspclient.LspSession(ctx.ironplcc_path())
+            try:
+                s2.initialize()
+                rid = s2.request(mlong, plong)
+                ra = s2.wait_for(lambda x: x.get('id') == rid, timeout=3)
+                rid3 = s2.request('textDocument/semanticTokens/full', {'textDocument': {'uri': 'file:///tmp/verif_c12.st'}})
+                rb = s2.wait_for(lambda x: x.get('id') == rid3, timeout=3)
+            finally:
+                s2.close()
+            if ra is None or rb is None:
+                return True, {'method': mlong[:40] + '...', 'method_bytes': len(mlong.encode()), 'params': str(plong)[:40], 'answered': ra is not None, 'later_request_answered': rb is not None}
+        return False, det
     return rp
 
 # ---------------------------------------------------------------------------------------------- K2 one loop iteration of run() for any message kind
@@ -292,8 +307,8 @@ def k4(ctx, kr):
     M.base_constraints = [z3.And([z3.ULT(x, 0x80) for x in ba])]
     def entry(M):
         sfields = [f for f, _ in P.structs.get('Source', [])]
-        srcs = VecV([Agg('()', [Agg('FileId', [Str('/a.st')]), Agg('Source', [Agg('FileId', [Str('/a.st')]), Str(list(ba)), none()])]),
-                     Agg('()', [Agg('FileId', [Str('/b.st')]), Agg('Source', [Agg('FileId', [Str('/b.st')]), Str('xy'), none()])])])
+        srcs = VecV([Agg('()', [Agg('FileId', [Str('/a.st')]), LSP.new_source(M, P, '/a.st', Str(list(ba)))]),
+                     Agg('()', [Agg('FileId', [Str('/b.st')]), LSP.new_source(M, P, '/b.st', 'xy')])])
         proj = Agg('LspProject', [Ref(Cell(Agg('project::FileBackedProject', [srcs])))])
         s_ = M.fresh_bv('start', 64); M.assume(z3.ULE(s_, LA)); st['s'] = M.enum_int(s_, 0, LA)
         e_ = M.fresh_bv('end', 64); M.assume(z3.And(z3.UGE(e_, st['s']), z3.ULE(e_, LA))); st['e'] = M.enum_int(e_, st['s'], LA)
